@@ -12,6 +12,7 @@ CLAIMS = {
     "C03": ("", "nothing-after-disposal gate at every delivery; the ghost phase flips to EndedBySink on entry of the sink talkback"),
     "C04": ("", "gates on every call to an upstream source/talkback (subscribed once, never before greeting, terminated at most once, not after it ended) and disposal postconditions"),
     "C05": ("", "postcondition of the upstream handler on Error: sink ended with that error id; invariant part fwd"),
+    "C06": ("stage contracts under the pullable profile + chain lemmas (unit pipeline) + rustc expansion of pipe! (unit pipe_macro)", "per-stage proofs of output = list function of input, demand conservation and completion, for from_iter (base), map/filter/scan/take/skip/concat/flatten (stages) and for_each (terminal); machine-checked chain lemmas for data and for no-stall; pipe! = nested application is decided by letting rustc expand the real macro. Identifying adjacent links and the induction over the number of stages is a stated meta-step"),
     "C07": ("", "data-relation invariant parts over Seq: map_values / filter / running fold / take / skip, with uninterpreted user functions"),
     "C08": ("profile R: members greet inside the subscribing call; late greeters not yet covered", "arrival-order data relation, counters tied to member phases by recursive counts with lemmas, Pull-reaches-every-live-member postcondition via a loop invariant, completion gate"),
     "C09": ("n >= 1; n == 0 is the unit concat0, finding F6", "lazy-subscription gate (member k+1 only after member k completed), member-order data relation over a recursive concatenation, re-issued Pull postcondition"),
@@ -26,7 +27,6 @@ CLAIMS = {
     "C20": ("", "the same contracts are discharged on the bodies extracted from the --features tracing expansion (real call! arm); user-closure call counters pin single evaluation"),
 }
 NA = {
-    "C06": "pipeline composition not built yet (per-stage contracts exist; the chain lemma is pending)",
     "C18": "thread-interleaving profile not built yet",
     "C19": "thread-interleaving profile not built yet",
 }
@@ -34,7 +34,7 @@ import glob, re as _re
 COVER = {}
 for f in sorted(glob.glob(os.path.join(V, "contracts", "*.rs"))):
     t = open(f).read()
-    m = _re.search(r"^//@op\s+(\w+)", t, _re.M)
+    m = _re.search(r"^//@(?:op\s+(\w+)|pure)", t, _re.M)
     pr = _re.search(r"^//@properties[ \t]+(.+)$", t, _re.M)
     if m and pr:
         name = os.path.basename(f)[:-3]
